@@ -21,8 +21,8 @@ import (
 
 // SizeField is the size of everything in an item except the message subfield.
 //
-//@ props C47
-//@ mode int
+// @ props C47
+// @ mode int
 func contract_SizeField(num protowire.Number) (r int) {
 	ensures(r == 3+protowire.SpecVlen(uint64(num)))
 	return
@@ -30,8 +30,8 @@ func contract_SizeField(num protowire.Number) (r int) {
 
 // AppendFieldStart emits the start-group tag, the type_id tag and the type id.
 //
-//@ props C47
-//@ mode int
+// @ props C47
+// @ mode int
 func contract_AppendFieldStart(b []byte, num protowire.Number) (r []byte) {
 	modifiesTail(b)
 	ensures(len(r) == len(b)+2+protowire.SpecVlen(uint64(num)))
@@ -44,8 +44,8 @@ func contract_AppendFieldStart(b []byte, num protowire.Number) (r []byte) {
 
 // AppendFieldEnd emits the end-group tag of field 1.
 //
-//@ props C47
-//@ mode int
+// @ props C47
+// @ mode int
 func contract_AppendFieldEnd(b []byte) (r []byte) {
 	modifiesTail(b)
 	ensures(len(r) == len(b)+1)
@@ -57,8 +57,8 @@ func contract_AppendFieldEnd(b []byte) (r []byte) {
 
 // Size agrees with what the two append halves emit.
 //
-//@ props C47
-//@ mode int
+// @ props C47
+// @ mode int
 func lemma_SizeFieldAppend(b []byte, num protowire.Number) {
 	r := AppendFieldEnd(AppendFieldStart(b, num))
 	ensures(len(r)-len(b) == SizeField(num))
@@ -117,7 +117,7 @@ func specItemMsg(message, b []byte, wantLen bool) bool {
 // length-delimited payload, and any other field is skipped by the wire grammar. The result is
 // the item's length or a negative code (-100 for an invalid type id).
 //
-//@ opaque
+// @ opaque
 func specItemLen(b []byte) int {
 	tn := protowire.SpecTagLen(b)
 	if tn < 0 {
@@ -152,7 +152,7 @@ func specItemLen(b []byte) int {
 // specItemType: the type id of a well-formed item is the value of its last type_id field
 // (acc if there is none).
 //
-//@ opaque
+// @ opaque
 func specItemType(b []byte, acc protowire.Number) protowire.Number {
 	tn := protowire.SpecTagLen(b)
 	if tn < 0 {
@@ -184,20 +184,20 @@ func specItemType(b []byte, acc protowire.Number) protowire.Number {
 // ConsumeFieldValue: accepts exactly the item grammar, returns its length and type id, is safe
 // for every input, and decodes the encoder's form exactly.
 //
-//@ props C47
-//@ mode int
-//@ abstract protowire.specVarintLen protowire.specVarintVal protowire.specTagLen protowire.specBytesLen protowire.specValueLen
-//@ loop 1 invariant suffixOf(b, old(b)) && ilen == len(old(b))
-//@ loop 1 invariant 0 <= typeid && typeid <= math.MaxInt32
-//@ loop 1 invariant message == nil || freshSlice(message) || (sameBase(message, old(b)) && cap(message) == len(message))
-//@ loop 1 invariant imp(wantLen && message != nil, len(message) >= 1)
-//@ loop 1 invariant imp(specItemLen(b) < 0, specItemLen(old(b)) == specItemLen(b))
-//@ loop 1 invariant imp(specItemLen(b) >= 0, specItemLen(old(b)) == ilen-len(b)+specItemLen(b))
-//@ loop 1 invariant imp(specItemLen(b) >= 0, specItemType(old(b), 0) == specItemType(b, typeid))
-//@ loop 1 invariant imp(specItemCanon(old(b)), len(b) == ilen || ilen-len(b) == specItemP(old(b)) || ilen-len(b) == specItemQ(old(b)))
-//@ loop 1 invariant imp(specItemCanon(old(b)) && len(b) == ilen, typeid == 0 && message == nil)
-//@ loop 1 invariant imp(specItemCanon(old(b)) && ilen-len(b) == specItemP(old(b)), typeid == specItemT(old(b)) && message == nil)
-//@ loop 1 invariant imp(specItemCanon(old(b)) && ilen-len(b) == specItemQ(old(b)), typeid == specItemT(old(b)) && message != nil && specItemMsg(message, old(b), wantLen))
+// @ props C47
+// @ mode int
+// @ abstract protowire.specVarintLen protowire.specVarintVal protowire.specTagLen protowire.specBytesLen protowire.specValueLen
+// @ loop 1 invariant suffixOf(b, old(b)) && ilen == len(old(b))
+// @ loop 1 invariant 0 <= typeid && typeid <= math.MaxInt32
+// @ loop 1 invariant message == nil || freshSlice(message) || (sameBase(message, old(b)) && cap(message) == len(message))
+// @ loop 1 invariant imp(wantLen && message != nil, len(message) >= 1)
+// @ loop 1 invariant imp(specItemLen(b) < 0, specItemLen(old(b)) == specItemLen(b))
+// @ loop 1 invariant imp(specItemLen(b) >= 0, specItemLen(old(b)) == ilen-len(b)+specItemLen(b))
+// @ loop 1 invariant imp(specItemLen(b) >= 0, specItemType(old(b), 0) == specItemType(b, typeid))
+// @ loop 1 invariant imp(specItemCanon(old(b)), len(b) == ilen || ilen-len(b) == specItemP(old(b)) || ilen-len(b) == specItemQ(old(b)))
+// @ loop 1 invariant imp(specItemCanon(old(b)) && len(b) == ilen, typeid == 0 && message == nil)
+// @ loop 1 invariant imp(specItemCanon(old(b)) && ilen-len(b) == specItemP(old(b)), typeid == specItemT(old(b)) && message == nil)
+// @ loop 1 invariant imp(specItemCanon(old(b)) && ilen-len(b) == specItemQ(old(b)), typeid == specItemT(old(b)) && message != nil && specItemMsg(message, old(b), wantLen))
 func contract_ConsumeFieldValue(b []byte, wantLen bool) (typeid protowire.Number, message []byte, n int, err error) {
 	ensures(iff(err == nil, specItemLen(b) >= 0))
 	ensures(imp(err == nil, n == specItemLen(b) && typeid == specItemType(b, 0)))
@@ -216,9 +216,9 @@ func contract_ConsumeFieldValue(b []byte, wantLen bool) (typeid protowire.Number
 // What the encoder writes for one item (start, message subfield, end) is decoded by
 // ConsumeFieldValue to the same type id and the same message bytes, consuming the whole item.
 //
-//@ props C47
-//@ mode int
-//@ abstract protowire.specVarintLen protowire.specVarintVal
+// @ props C47
+// @ mode int
+// @ abstract protowire.specVarintLen protowire.specVarintVal
 func lemma_ItemRoundTrip(num protowire.Number, v []byte, wantLen bool) {
 	requires(1 <= num && num <= math.MaxInt32)
 	s := AppendFieldStart(nil, num)
@@ -239,7 +239,7 @@ func lemma_ItemRoundTrip(num protowire.Number, v []byte, wantLen bool) {
 // unresolved item (type id T, value V) as field T with bytes value V; -1 if the section is
 // not of that shape.
 //
-//@ opaque
+// @ opaque
 func specUnknownSize(u []byte) int {
 	if len(u) == 0 {
 		return 0
@@ -260,29 +260,29 @@ func specUnknownSize(u []byte) int {
 	return 3 + protowire.SpecVlen(protowire.SpecVarintVal(u, tn)>>3) + 1 + bn + rest
 }
 
-//@ props C47
-//@ mode int
-//@ abstract protowire.specVarintLen protowire.specVarintVal protowire.specTagLen protowire.specBytesLen
-//@ loop 1 invariant suffixOf(unknown, old(unknown)) && 0 <= size && size <= 9*(len(old(unknown))-len(unknown))
-//@ loop 1 invariant imp(specUnknownSize(unknown) < 0, specUnknownSize(old(unknown)) < 0)
-//@ loop 1 invariant imp(specUnknownSize(unknown) >= 0, specUnknownSize(old(unknown)) == size+specUnknownSize(unknown))
-//@ loop 1 decreases len(unknown)
+// @ props C47
+// @ mode int
+// @ abstract protowire.specVarintLen protowire.specVarintVal protowire.specTagLen protowire.specBytesLen
+// @ loop 1 invariant suffixOf(unknown, old(unknown)) && 0 <= size && size <= 9*(len(old(unknown))-len(unknown))
+// @ loop 1 invariant imp(specUnknownSize(unknown) < 0, specUnknownSize(old(unknown)) < 0)
+// @ loop 1 invariant imp(specUnknownSize(unknown) >= 0, specUnknownSize(old(unknown)) == size+specUnknownSize(unknown))
+// @ loop 1 decreases len(unknown)
 func contract_SizeUnknown(unknown []byte) (size int) {
 	ensures(imp(specUnknownSize(unknown) >= 0, size == specUnknownSize(unknown)))
 	ensures(imp(specUnknownSize(unknown) < 0, size == 0))
 	return
 }
 
-//@ props C47
-//@ mode int
-//@ abstract protowire.specVarintLen protowire.specVarintVal protowire.specTagLen protowire.specBytesLen
-//@ spec-frame
-//@ loop 1 invariant suffixOf(unknown, old(unknown)) && len(b) >= len(old(b))
-//@ loop 1 invariant sameArray(b, old(b)) || freshSlice(b)
-//@ loop 1 invariant disjointFromTail(old(unknown), b)
-//@ loop 1 invariant imp(specUnknownSize(unknown) < 0, specUnknownSize(old(unknown)) < 0)
-//@ loop 1 invariant imp(specUnknownSize(unknown) >= 0, specUnknownSize(old(unknown)) == len(b)-len(old(b))+specUnknownSize(unknown))
-//@ loop 1 decreases len(unknown)
+// @ props C47
+// @ mode int
+// @ abstract protowire.specVarintLen protowire.specVarintVal protowire.specTagLen protowire.specBytesLen
+// @ spec-frame
+// @ loop 1 invariant suffixOf(unknown, old(unknown)) && len(b) >= len(old(b))
+// @ loop 1 invariant sameArray(b, old(b)) || freshSlice(b)
+// @ loop 1 invariant disjointFromTail(old(unknown), b)
+// @ loop 1 invariant imp(specUnknownSize(unknown) < 0, specUnknownSize(old(unknown)) < 0)
+// @ loop 1 invariant imp(specUnknownSize(unknown) >= 0, specUnknownSize(old(unknown)) == len(b)-len(old(b))+specUnknownSize(unknown))
+// @ loop 1 decreases len(unknown)
 func contract_AppendUnknown(b, unknown []byte) (r []byte, err error) {
 	requires(disjointFromTail(unknown, b))
 	modifiesTail(b)
@@ -294,8 +294,8 @@ func contract_AppendUnknown(b, unknown []byte) (r []byte, err error) {
 
 // Size of the unknown section equals what AppendUnknown emits.
 //
-//@ props C47
-//@ mode int
+// @ props C47
+// @ mode int
 func lemma_SizeAppendUnknown(b, unknown []byte) {
 	requires(disjointFromTail(unknown, b))
 	r, err := AppendUnknown(b, unknown)
@@ -305,10 +305,10 @@ func lemma_SizeAppendUnknown(b, unknown []byte) {
 // Unmarshal walks the items: it never panics, never reads past b and never drops an error
 // reported by a parser or by the callback.
 //
-//@ props C47
-//@ mode int
-//@ guard-errors
-//@ loop 1 invariant suffixOf(b, old(b))
+// @ props C47
+// @ mode int
+// @ guard-errors
+// @ loop 1 invariant suffixOf(b, old(b))
 func contract_Unmarshal(b []byte, wantLen bool, fn func(typeID protowire.Number, value []byte) error) (err error) {
 	modifiesAll()
 	return
